@@ -24,6 +24,10 @@ use super::{
 
 const PARSE_AT_LEAST: usize = 3; // N in Corchuelo et al.
 const TRY_PARSE_AT_MOST: usize = 250;
+#[cfg(grmtools_verif)]
+pub(crate) const VERIF_PARSE_AT_LEAST: usize = PARSE_AT_LEAST;
+#[cfg(grmtools_verif)]
+pub(crate) const VERIF_TRY_PARSE_AT_MOST: usize = TRY_PARSE_AT_MOST;
 
 #[derive(Clone, Copy, Debug, Eq, Hash, PartialEq)]
 enum Repair<StorageT> {
@@ -187,6 +191,10 @@ where
             |explore_all, n, nbrs| {
                 // Calculate n's neighbours.
 
+                #[cfg(grmtools_verif)]
+                if crate::verif_hooks::tick() {
+                    return false;
+                }
                 if Instant::now() >= finish_by {
                     return false;
                 }
@@ -391,6 +399,10 @@ where
             finish_by: Instant,
             rm: &Cactus<RepairMerge<StorageT>>,
         ) -> Option<Vec<Vec<Repair<StorageT>>>> {
+            #[cfg(grmtools_verif)]
+            if crate::verif_hooks::tick() {
+                return None;
+            }
             if Instant::now() >= finish_by {
                 return None;
             }
@@ -584,6 +596,10 @@ where
     let mut cnds = Vec::new();
     let mut furthest = 0;
     for rpr_seqs in in_cnds {
+        #[cfg(grmtools_verif)]
+        if crate::verif_hooks::tick() {
+            return vec![];
+        }
         if Instant::now() >= finish_by {
             return vec![];
         }
